@@ -310,6 +310,7 @@ func gen6(rng *rand.Rand, xid uint32, wellFormed bool) []byte {
 		for i := 0; i < rng.Intn(3); i++ {
 			extra = append(extra, randOpt6(rng, 2))
 		}
+		extra = append(extra, relayAgentOpts6(rng)...)
 		rt := byte(12)
 		if !wellFormed && rng.Intn(10) == 0 {
 			rt = 13
@@ -321,6 +322,33 @@ func gen6(rng *rand.Rand, xid uint32, wellFormed bool) []byte {
 		msg = pkt.Relay6(rt, byte(d), net.ParseIP(fmt.Sprintf("2001:db8:%x::1", rng.Intn(65536))), net.ParseIP(fmt.Sprintf("fe80::%x", 1+rng.Intn(65535))), extra, inner)
 	}
 	return msg
+}
+
+// relayAgentOpts6 returns options a relay agent legitimately adds to its Relay-Forward layer and that a
+// server may have to act on or echo: Echo Request (43, RFC 4994: a list of option codes - any codes, the
+// relay decides), Subscriber-ID (38), Relay-ID (53), Link-Address (80), Client-Link-Layer (79), Remote-ID.
+func relayAgentOpts6(rng *rand.Rand) []pkt.Opt6 {
+	var o []pkt.Opt6
+	if rng.Intn(3) == 0 {
+		codes := []uint16{9, 18, 37, 38, 79, 43, 1, 2, 3, 23, 13, 47, uint16(rng.Intn(65536))}
+		var b []byte
+		for i := rng.Intn(5); i >= 0; i-- {
+			c := codes[rng.Intn(len(codes))]
+			b = append(b, byte(c>>8), byte(c))
+		}
+		o = append(o, pkt.O6(43, b))
+	}
+	if rng.Intn(6) == 0 {
+		o = append(o, pkt.O6(38, []byte("subscriber-17")))
+	}
+	if rng.Intn(6) == 0 {
+		o = append(o, pkt.O6(53, randDUID(rng)))
+	}
+	if rng.Intn(6) == 0 {
+		o = append(o, pkt.O6(80, net.ParseIP("2001:db8:80::1").To16()))
+	}
+	rng.Shuffle(len(o), func(i, j int) { o[i], o[j] = o[j], o[i] })
+	return o
 }
 
 // noise4 returns legal options that none of the decision tables depends on: whatever they are, the
@@ -351,11 +379,35 @@ func noise4(rng *rand.Rand, with82, with61 bool) []pkt.Opt4 {
 		o = append(o, pkt.O4(77, 4, 'i', 'P', 'X', 'E'))
 	}
 	if with82 && rng.Intn(3) == 0 {
-		l := []int{3, 12, 60, 200, 255}[rng.Intn(5)]
-		v := make([]byte, l)
-		rng.Read(v)
-		v[0], v[1] = 1, byte(l-2)
-		o = append(o, pkt.O4(82, v...))
+		if rng.Intn(2) == 0 {
+			l := []int{3, 12, 60, 200, 255}[rng.Intn(5)]
+			v := make([]byte, l)
+			rng.Read(v)
+			v[0], v[1] = 1, byte(l-2)
+			o = append(o, pkt.O4(82, v...))
+		} else {
+			// a well-formed list of the sub-options relays really send: circuit id (1), remote id (2), link
+			// selection (5, RFC 3527), subscriber id (6), server identifier override (11, RFC 5107), relay id (12)
+			var v []byte
+			sub := func(code byte, val ...byte) { v = append(append(v, code, byte(len(val))), val...) }
+			sub(1, []byte(fmt.Sprintf("ge-0/0/%d", rng.Intn(48)))...)
+			if rng.Intn(2) == 0 {
+				sub(2, 0xde, 0xad, byte(rng.Intn(256)))
+			}
+			if rng.Intn(3) == 0 {
+				sub(5, 10, byte(rng.Intn(256)), 0, 0)
+			}
+			if rng.Intn(3) == 0 {
+				sub(6, []byte("subscriber")...)
+			}
+			if rng.Intn(2) == 0 {
+				sub(11, [][]byte{{10, 9, 0, 77}, {10, 9, 9, 9}, {192, 0, 2, byte(1 + rng.Intn(254))}, {0, 0, 0, 0}}[rng.Intn(4)]...)
+			}
+			if rng.Intn(4) == 0 {
+				sub(12, 1, 2, 3, 4, 5, 6)
+			}
+			o = append(o, pkt.O4(82, v...))
+		}
 	}
 	if with61 && rng.Intn(3) == 0 {
 		l := []int{2, 7, 19, 120, 255}[rng.Intn(5)]
